@@ -86,6 +86,11 @@ def cases(tier: str, seed: int) -> list[dict]:
             for h in ("none", "Linear", "Voce"):
                 out.append({"fam": "path", "surf": s, "hard": h, "kin": "none", "rate": "none", "branches": 0, "dims": d, "solver": "auto"})
         out.append({"fam": "path", "surf": "VonMises", "hard": "Linear", "kin": "AF", "rate": "none", "branches": 0, "dims": d, "solver": "auto"})
+        # elastic constants changed mid-path: reducible (spectral return) and general configurations
+        out.append({"fam": "path", "surf": "VonMises", "hard": "Linear", "kin": "none", "rate": "none", "branches": 0, "dims": d, "solver": "auto", "retune": True})
+        out.append({"fam": "path", "surf": "Hill", "hard": "Voce", "kin": "none", "rate": "none", "branches": 0, "dims": d, "solver": "auto", "retune": True})
+        out.append({"fam": "path", "surf": "VonMises", "hard": "none", "kin": "Prager", "rate": "none", "branches": 1, "dims": d, "solver": "newton", "retune": True})
+        out.append({"fam": "path", "surf": "DruckerPrager", "hard": "Linear", "kin": "none", "rate": "Norton", "branches": 0, "dims": d, "solver": "auto", "retune": True})
         out.append({"fam": "path", "surf": "VonMises", "hard": "none", "kin": "Chaboche2", "rate": "none", "branches": 0, "dims": d, "solver": "newton"})
         out.append({"fam": "elastic", "dims": d, "branches": 0})
         out.append({"fam": "elastic", "dims": d, "branches": 2})
@@ -171,7 +176,7 @@ def sig6_from_state(cfg, beh, eps6, z):
 
 
 def run_path(case, ctx, rng):
-    key0 = f"C19/{case['surf']}/{case['hard']}/{case['kin']}/{case['rate']}/b{case['branches']}/{case['dims']}"
+    key0 = f"C19/{case['surf']}/{case['hard']}/{case['kin']}/{case['rate']}/b{case['branches']}/{case['dims']}" + ("/retuned" if case.get("retune") else "")
     ctx.default_key = key0
     with ctx.monitored("no-exception", key0 + "/build/raised"):
         beh, cfg = build(case, rng)
@@ -205,6 +210,19 @@ def run_path(case, ctx, rng):
 
     with ctx.monitored("no-exception", key0 + "/raised"):
         for k in range(nsteps):
+            if case.get("retune") and k == nsteps // 2:
+                # the elastic constants are changed in the middle of the path (temperature-dependent moduli, a parameter study on one
+                # object): every later step is integrated with the law as it now is. The harness takes the new stiffness from a
+                # law of its own, so that nothing it reads can refresh what the behaviour keeps.
+                with quiet():
+                    cfg["E"] = cfg["E"] * float(rng.uniform(0.5, 0.8))
+                    cfg["v"] = float(np.clip(cfg["v"] + rng.uniform(-0.1, 0.08), 0.05, 0.45))
+                    cfg["el"].E = cfg["E"]
+                    cfg["el"].v = cfg["v"]
+                    cfg["C"] = np.asarray(Models.Elastic.Isotropic(3, E=cfg["E"], v=cfg["v"]).C, float)
+                C = cfg["C"]
+                Czz = float(C[ZZ, ZZ])
+                ctx.event("elastic-constants-changed-mid-path")
             # path program: keep / turn / reverse the direction; step size 0.05 - 5 yield strains
             u = rng.random((Ne, nPg))
             newdir = rng.normal(size=(Ne, nPg, nd))
@@ -368,7 +386,7 @@ def run_path(case, ctx, rng):
             # ---- commit the converged points (what Save_Iter does) ------------------------------------------------------
             z = np.where(ok[..., None], znew, z)
             eps = np.where(ok[..., None], eps_new, eps)
-    ctx.describe("/".join(str(case[k]) for k in ("surf", "hard", "kin", "rate", "branches", "dims", "solver")), nplastic >= 3 and nunload >= 1 and nturn >= 1,
+    ctx.describe("/".join(str(case[k]) for k in ("surf", "hard", "kin", "rate", "branches", "dims", "solver")) + ("/retuned" if case.get("retune") else ""), nplastic >= 3 and nunload >= 1 and nturn >= 1,
                  plastic_steps=nplastic, unloadings=nunload, turns=nturn, dt=dt, **{k: case[k] for k in ("surf", "hard", "kin", "rate", "branches", "dims", "solver")})
 
 
